@@ -7,6 +7,8 @@
 import Drv.Util
 import Nq.Rewrite
 import Nq.Spec.Route
+import Nq.RewriteIO
+import Nq.Spec.RouteIO
 import Nq.Gen.Consts
 
 open Nq Nq.Rewrite Nq.Route Drv
@@ -61,7 +63,7 @@ structure Scen where
   f0 : Files
   d : Daemon
   sp : Option SpecD
-  evs : List Ev := []          -- observed trace, reversed
+  evs : List EvF := []         -- observed trace, reversed (EvF: failing re-reads included)
   modelOk : Bool := true
   specOk : Bool := true
   hups : Nat := 0
@@ -72,30 +74,39 @@ def showOut : Option TodoOut → String
   | none => "fail"
 
 /-- feed one observed event to the monitor (DISAGREE) and to the documented predicate (ORACLE) -/
-def feed (st : Stats) (sc : Scen) (e : Ev) : IO (Stats × Scen) := do
+def feedF (st : Stats) (sc : Scen) (e : EvF) : IO (Stats × Scen) := do
   let mut st := st
+  let insts := sc.f0 :: servedAt sc.f0 false sc.evs.reverse      -- the directories looked at so far (C10_one_instant_spec)
   let mut sc := { sc with evs := e :: sc.evs }
-  match accept sc.d e with
+  match acceptF sc.d e with
   | some d' => sc := { sc with d := d' }
   | none =>
     sc := { sc with modelOk := false }
     match e with
-    | .msg todo out =>
+    | .ev (.msg todo out) =>
       st ← disagree st s!"kind=S in={sc.inh} todo={hex todo} impl={showOut out} model={showOut (todoDo sc.d.cfg.htLookups sc.d.cfg.env todo)} stdin={sc.inh}"
     | _ => st ← disagree st s!"kind=S in={sc.inh} event rejected by the monitor"
   match sc.sp with
   | some s =>
-    if !specJudge s e then
+    if !specJudgeF s e then
       sc := { sc with specOk := false }
       match e with
-      | .msg todo out =>
+      | .ev (.msg todo out) =>
         st ← oracleFail st s!"kind=S in={sc.inh} todo={hex todo} impl={showOut out} spec={showOut (specTodo s.cfg todo)} stdin={sc.inh}"
       | _ => st ← oracleFail st s!"kind=S in={sc.inh} event judged false"
     else
       match e with
-      | .msg _ out =>
+      | .ev (.msg todo out) =>
         if !cfgOk s.cfg then st := st.bump "S_oracle_skipped_dup"
-        else match out with
+        else
+          -- C10_one_instant_spec: the outputs are the documented ones under locals AND virtualdomains of ONE directory
+          match specStart sc.f0 with
+          | some s0 =>
+            if !judgeOneInstant s0.cfg sc.f0.me insts todo out then
+              st ← oracleFail st s!"kind=S in={sc.inh} todo={hex todo} impl={showOut out} no-single-instant stdin={sc.inh}"
+            else st := st.bump "S_msg_one_instant_judged"
+          | none => pure ()
+          match out with
           | some o =>
             if !o.loc.isEmpty && !o.rem.isEmpty then st := st.bump "S_msg_both_channels"
             -- todo_do's channel buffers are 1024 bytes: messages that made a channel flush while the other had data pending
@@ -106,9 +117,25 @@ def feed (st : Stats) (sc : Scen) (e : Ev) : IO (Stats × Scen) := do
               st := st.bump "S_msg_channel_exact_multiple_of_1k"
           | none => st := st.bump "S_msg_failed_judged"
       | _ => pure ()
-    sc := { sc with sp := specStep sc.f0 s e }
+    sc := { sc with sp := specStepF sc.f0 s e }
   | none => pure ()
   return (st, sc)
+
+def feed (st : Stats) (sc : Scen) (e : Ev) : IO (Stats × Scen) := feedF st sc (.ev e)
+
+/-- the call the harness reports as failed: name, control file, read index -/
+def obsCall (name file idx : String) : Option Call :=
+  let ctl : Option Ctl := match file with
+    | "me" => some .me | "envnoathost" => some .env | "locals" => some .locals | "percenthack" => some .ph
+    | "virtualdomains" => some .vdoms | "other" => some .other | _ => none
+  match name, ctl, idx.toNat? with
+  | "none", _, _ => some .past
+  | "chdir", _, _ => some .chdirHome
+  | "chdir_queue", _, _ => some .chdirQueue
+  | "open_read", some c, _ => some (.openf c)
+  | "read", some c, some k => some (.readf c k)
+  | "close", some c, _ => some (.closef c)
+  | _, _, _ => none
 
 /-- one scenario: fold over the step tokens. `H` = files written, SIGHUP delivered while the daemon was
 blocked in select(), daemon seen idle in select() again: events edit, hup, top. `E` = files written, no
@@ -119,10 +146,10 @@ partial def scenario (st : Stats) (d0 : Daemon) (sc : Scen) : List String → IO
     -- the whole observed trace through the two predicates of theorem C10_trace, literally
     let evs := sc.evs.reverse
     let mut st := st
-    if (acceptAll d0 evs).isSome != sc.modelOk then
-      st ← disagree st s!"kind=S in={sc.inh} acceptAll and the step-wise monitor differ"
-    if specTrace sc.f0 (specStart sc.f0) evs != sc.specOk then
-      st ← oracleFail st s!"kind=S in={sc.inh} specTrace={specTrace sc.f0 (specStart sc.f0) evs} stdin={sc.inh}"
+    if (acceptFAll d0 evs).isSome != sc.modelOk then
+      st ← disagree st s!"kind=S in={sc.inh} acceptFAll and the step-wise monitor differ"
+    if specTraceF sc.f0 (specStart sc.f0) evs != sc.specOk then
+      st ← oracleFail st s!"kind=S in={sc.inh} specTraceF={specTraceF sc.f0 (specStart sc.f0) evs} stdin={sc.inh}"
     return st
   | "M" :: todoh :: infoh :: loch :: remh :: rest => do
     let out : Option (Option TodoOut) :=
@@ -138,6 +165,29 @@ partial def scenario (st : Stats) (d0 : Daemon) (sc : Scen) : List String → IO
       let (st', sc') ← feed st sc (.msg todo o)
       scenario st' d0 sc' rest
     | _, _ => disagree st s!"kind=S in={sc.inh} daemon-timeout-or-unparsable todo={todoh} {infoh} {loch} {remh}"
+  | "J" :: ks :: a1 :: b1 :: c1 :: e1 :: g1 :: name :: file :: idx :: rest => do
+    -- a failing re-read: f1 written, SIGHUP delivered in select(), the k-th call of reread() failed (`name file idx` = what the
+    -- harness's gate failed; "none" = reread() made fewer calls), daemon idle again.  Events: edit f1, hup, topIO io.
+    match filesOf [a1, b1, c1, e1, g1], ks.toNat?, obsCall name file idx with
+    | some f1, some k, some oc =>
+      let mut st := st
+      -- the model's call sequence of reread() against the call the gate really failed
+      let mc := rereadCall sc.d.me f1 k
+      if mc != oc then
+        st ← disagree st s!"kind=S in={sc.inh} re-read call {k}: impl={name},{file},{idx} model={repr mc} stdin={sc.inh}"
+      let io := oc.io
+      let (st1, sc1) ← feed st sc (.edit f1)
+      let (st2, sc2) ← feed st1 sc1 .hup
+      let (st3, sc3) ← feedF st2 sc2 (.topIO io)
+      let struck := strikesReread io f1
+      let st4 := (st3.bump "S_hup").bump (if struck then "S_reread_failed" else "S_reread_fault_harmless")
+      let st5 := st4.bump ("S_reread_fault_at_" ++ name ++ (if file == "-" then "" else "_" ++ file))
+      -- did the failed re-read matter?  (the tables on disk differ from those in force)
+      let st6 := if struck && tablesAt sc.d.me f1 != some (sc.d.cfg.locals, sc.d.cfg.vdoms) then st5.bump "S_reread_failed_tables_differ" else st5
+      let st7 := if struck && name != "chdir" && file == "virtualdomains" &&
+          (tablesAt sc.d.me f1).map (·.1) != some sc.d.cfg.locals then st6.bump "S_reread_failed_at_vdoms_after_new_locals_read" else st6
+      scenario st7 d0 { sc3 with hups := sc3.hups + 1, stale := struck } rest
+    | _, _, _ => disagree st s!"kind=S in={sc.inh} unparsable J step"
   | "I" :: ks :: a1 :: b1 :: c1 :: e1 :: g1 :: a2 :: b2 :: c2 :: e2 :: g2 :: masks :: call :: rest => do
     -- SIGHUP (B) during the re-read that serves SIGHUP (A): f1 written, (A) delivered in select(), the daemon held before
     -- its k-th call inside reread(); f2 written (atomic renames), (B) delivered, daemon released, idle, trigger pulled
@@ -318,6 +368,8 @@ def handle (ref : IO.Ref Cur) (st : Stats) (line : String) : IO Stats := do
       let mut st := st.bump "B"
       if rchr c.toUInt8 s != r then
         st ← disagree st s!"kind=B in={sh} c={cs} impl={rs} model={rchr c.toUInt8 s} stdin=B,{cs},{sh}"
+      if rchrC c.toUInt8 s != r then
+        st ← disagree st s!"kind=B in={sh} c={cs} impl={rs} model-loop={rchrC c.toUInt8 s} stdin=B,{cs},{sh}"
       let good := match splitLast c.toUInt8 s with
         | some p => r == p.1.length
         | none => r == s.length
@@ -360,6 +412,26 @@ def handle (ref : IO.Ref Cur) (st : Stats) (line : String) : IO Stats := do
         if started != "0" then disagree st s!"kind=D in={inh} the daemon started (model: refuses)"
         else return st.bump "D_refused"
     | _, _, _, _ => disagree st s!"unparsable line {line}"
+  | ["Z", ks, a, b, c, d, e, started, name, file, idx] =>
+    match filesOf [a, b, c, d, e], ks.toNat?, obsCall name file idx with
+    | some f, some k, some oc =>
+      let inh := ",".intercalate ["Z", ks, a, b, c, d, e]
+      let mut st := st.bump "Z"
+      let io := oc.io
+      -- the model's call sequence of start-up against the call the gate really failed (only while the daemon gets that far)
+      let mc := startCall f k
+      if (start f).isSome && mc != oc then
+        st ← disagree st s!"kind=Z in={inh} start-up call {k}: impl={name},{file},{idx} model={repr mc} stdin={inh}"
+      if (startIO io f).isSome != (started == "1") then
+        st ← disagree st s!"kind=Z in={inh} started={started} model={(startIO io f).isSome} fault={name},{file},{idx} stdin={inh}"
+      -- oracle (C10_start_io_spec): it starts iff no error strikes a call start-up needs and the documents let it start
+      if nulFreeB f && (specStartIO io f).isSome != (started == "1") then
+        st ← oracleFail st s!"kind=Z in={inh} started={started} documented={(specStartIO io f).isSome} fault={name},{file},{idx} stdin={inh}"
+      st := st.bump ("Z_fault_at_" ++ name ++ (if file == "-" then "" else "_" ++ file))
+      if strikesStart io f && (start f).isSome then st := st.bump "Z_refused_because_of_the_fault"
+      if !strikesStart io f && (start f).isSome then st := st.bump "Z_started_fault_harmless_or_none"
+      return st
+    | _, _, _ => disagree st s!"unparsable line {line}"
   | "S" :: a :: b :: c :: d :: e :: started :: _n :: steps =>
     match filesOf [a, b, c, d, e] with
     | some f =>
